@@ -15,7 +15,7 @@ invariants between caller buffers and lengths).
 """
 import re
 
-from . import effects, ir, ptr, ranges, repo
+from . import effects, facts, ir, ptr, ranges, repo
 
 LEVEL = "other"
 MANIFEST = {
@@ -69,12 +69,13 @@ def run(rep, tier):
     jobs.append((builds[0], dict(group="asconcrypt", level="O0")))
     jobs.append((builds[0], dict(group="asconsum", level="O0")))
     lowered = repo.lower_many(jobs)
-    for r in ("C12.D1", "C12.D1m", "C12.D2", "C12.D3", "C12.D4"):
+    for r in ("C12.D1", "C12.D1m", "C12.D2", "C12.D3", "C12.D4", "C12.D6"):
         rep.rule(r, {"C12.D1": "constant subscript inside its array",
                      "C12.D1m": "constant-extent block operation inside its object/member",
                      "C12.D2": "guard-bounded variable subscript below the array bound",
                      "C12.D3": "strlen(p)-K is guarded",
-                     "C12.D4": "shift amount below operand width"}[r])
+                     "C12.D4": "shift amount below operand width",
+                     "C12.D6": "constant-extent access fits the guard-bounded remaining length"}[r])
     for (b, kw), lr in zip(jobs, lowered):
         m = ir.Module.load(lr.json)
         cname = b.cfg.name if kw["group"] == "lib" else kw["group"]
@@ -83,15 +84,112 @@ def run(rep, tier):
         for u, err in lr.failed:
             rep.notes.append("unit %s not lowered by clang in %s" % (u, cname))
         lay = effects.Layouts(m)
+        decls = {}
+        if kw["group"] == "lib":
+            for d in facts.group_facts(b, "lib", ("c",)):
+                for x in d["decls"]:
+                    if x.get("def"):
+                        decls.setdefault(x["name"], x)
         for f in m.defined():
             if not f.srcfile.startswith(repo.REPO):
                 continue      # libstdc++ template instantiations
             rep.functions += 1
             check_function(rep, m, f, lay, cname)
+            dd = decls.get(f.d.get("srcname", f.name))
+            if dd is not None:
+                rule_output_range(rep, m, f, dd, cname)
         rule_strlen_sub(rep, m, cname)
+    control_d6(rep)
     rep.floor("C12.D1", 2000)
     rep.floor("C12.D1m", 300)
     rep.floor("C12.D2", 20)
+
+
+LEN_NAMES = ("size", "len", "outlen", "inlen", "mlen", "clen", "adlen", "count", "length")
+PAIR_NAMES = {"out": "outlen", "in": "inlen", "m": "mlen", "c": "clen", "ad": "adlen"}
+
+
+def rule_output_range(rep, m, f, decl, cname):
+    """D6: a constant-extent access relative to a buffer cursor must fit in
+    the remaining length: if the guards bound the remaining length to at most
+    H bytes at that point, an access of bytes [c, c+w) with c + w > H reads or
+    writes past the documented range for every feasible length."""
+    from .rules_c07 import _base_and_offset
+    rid = "C12.D6"
+    params = decl["params"]
+    if len(params) != len(f.params):
+        return
+    bufs = [k for k, p in enumerate(params) if p["ty"].replace(" ", "").replace("const", "") in ("unsignedchar*", "uint8_t*", "char*")]
+    lens = [k for k, p in enumerate(params) if "*" not in p["ty"] and p["name"] in LEN_NAMES]
+    if not bufs or not lens:
+        return
+    R = ptr.resolver(f)
+    RG = None
+    for i in f.insts():
+        if i.op == "load":
+            p, w = i.ops[0], i.d["sz"]
+        elif i.op == "store":
+            p, w = i.ops[1], i.d["sz"]
+        else:
+            continue
+        pv = R.resolve(p)
+        root = pv.single()
+        if root is None or root[0] != "param":
+            continue
+        k = f.params.index(root[1])
+        if k not in bufs:
+            continue
+        base, off, terms = _base_and_offset(f, p)
+        if terms or off < 0:
+            continue
+        # the length paired with this buffer
+        want = PAIR_NAMES.get(params[k]["name"])
+        lk = [x for x in lens if params[x]["name"] == want] or (lens if len(lens) == 1 else [])
+        if len(lk) != 1:
+            continue
+        N = f.params[lk[0]]
+        cands = []
+        if base == f.params[k]:
+            cands = [N]
+        else:
+            bd = f.defs.get(base)
+            if bd is None or bd.op != "phi":
+                continue
+            for j in bd.block.insts:
+                if j.op == "phi" and j.ty.startswith("i") and _derives_from_len(f, j.id, N):
+                    cands.append(j.id)
+        if len(cands) != 1:
+            continue
+        RG = RG or ranges.Ranges(f, wide=True)
+        lo, hi = RG.at(cands[0], i.block.name)
+        if hi >= (1 << 31):
+            continue
+        if off + w > hi:
+            rep.violation(rid, "%s:%s+%d..%d" % (f.name, params[k]["name"], off, off + w), i.where(),
+                          "%s %s %d byte(s) at offset %d of the current position of '%s', but at this point the guards "
+                          "bound the remaining %s to at most %d byte(s): the access goes past the documented range for "
+                          "every feasible length" % (f.name, "stores" if i.op == "store" else "loads", w, off,
+                                                     params[k]["name"], params[lk[0]]["name"], hi), config=cname)
+        else:
+            rep.instance(rid, 1, {"config": cname, "function": f.name, "buffer": params[k]["name"],
+                                  "access": [off, off + w], "remaining_at_most": hi})
+
+
+def _derives_from_len(f, v, N, depth=0, seen=None):
+    seen = seen if seen is not None else set()
+    if v == N:
+        return True
+    if not ir.is_local(v) or v in seen or depth > 12:
+        return False
+    seen.add(v)
+    d = f.defs.get(v)
+    if d is None:
+        return False
+    if d.op == "phi":
+        return any(_derives_from_len(f, x, N, depth + 1, seen) for x, _ in d.d["inc"])
+    if d.op in ("sub", "add", "zext", "trunc", "sext"):
+        return _derives_from_len(f, d.ops[0], N, depth + 1, seen)
+    return False
 
 
 def _used_for_access(f, vid, uses, seen=None, depth=0):
@@ -390,3 +488,26 @@ def _predicate_accepts_short(pf, k):
                 continue
             return "returns %s when the length is in [%d,%d]" % (c if c is not None else "a computed value", lo, min(hi, k - 1))
     return None
+
+
+def control_d6(rep):
+    """positive control: the fixture's out-of-range store must be found"""
+    import os
+    from . import report as _r
+    src = os.path.join(repo.VERIF, "fixtures", "c12_overrun.c")
+    out = os.path.join(repo.scratch(), "c12fix")
+    os.makedirs(out, exist_ok=True)
+    ll, opt, js = os.path.join(out, "f.ll"), os.path.join(out, "f.opt.ll"), os.path.join(out, "f.json")
+    repo.run(["clang", "-O0", "-Xclang", "-disable-O0-optnone", "-g", "-fno-discard-value-names", "-S", "-emit-llvm", src, "-o", ll])
+    repo.run(["opt-14", "-S", "-passes=function(sroa,early-cse)", ll, "-o", opt])
+    repo.run([repo.IRDUMP, opt, js])
+    m = ir.Module.load(js)
+    f = m.funcs["fixture_copy_blocks"]
+    decl = {"params": [{"name": "output", "ty": "uint8_t *"}, {"name": "input", "ty": "const uint8_t *"},
+                       {"name": "size", "ty": "unsigned int"}]}
+    probe = _r.Report("C12", "quick")
+    rule_output_range(probe, m, f, decl, "fixture")
+    if not any(v["rule"] == "C12.D6" for v in probe.violations):
+        rep.broken.append("C12.D6 positive control: the fixture's out-of-range store was not reported")
+    else:
+        rep.instance("C12.D6", 1, {"positive_control": "fixtures/c12_overrun.c flagged"})
